@@ -2,7 +2,7 @@
    Only statements, each closed by [exact <lemma>], followed by Print Assumptions. *)
 From Coq Require Import List NArith Bool Arith Lia.
 Import ListNotations.
-From JV Require Import Model.Stream Proofs.StreamProofs Lib.PyGen Proofs.StreamTrans.
+From JV Require Import Model.Stream Proofs.StreamProofs Lib.PyGen Proofs.StreamTrans Proofs.StreamHist.
 
 (* the concatenation of a buffered stream equals render, for every piece list and size *)
 Theorem C10_buffered_concat : forall (size : nat) (pieces : list str) (chunks : list str),
@@ -87,10 +87,32 @@ Theorem C10_size_zero_spins : forall n, run_gen buffered_term 5 0 [] n = OFuel.
 Proof. exact size_zero_spins. Qed.
 Print Assumptions C10_size_zero_spins.
 
+(* histories on one stream object: whatever sequence of enable_buffering(n) (refused for n <= 1),
+   disable_buffering() and next() calls precedes, the text yielded so far followed by the text of
+   iterating the stream to the end is the rendered text — switching modes loses and duplicates nothing *)
+Theorem C10_history_text : forall ops pieces,
+  let '(st, outs) := srun {| mode := None; rest := pieces |} ops in
+  concat (map out_text outs) ++ concat (sdrain st) = render pieces.
+Proof. exact history_text. Qed.
+Print Assumptions C10_history_text.
+
+(* and after buffering was enabled with size n over the pieces then left, the next() calls yield exactly
+   the buffered generator's chunks of those pieces (to which C10_buffered_chunks applies), whatever
+   happened before *)
+Theorem C10_history_chunks : forall n ps k, length ps < k ->
+  nexts k {| mode := Some n; rest := ps |} = buffered_go n [] 0 ps.
+Proof. intros n ps k H. exact (nexts_buffered n (length ps) ps k (le_n _) H). Qed.
+Print Assumptions C10_history_chunks.
+
 (* non-vacuity: a concrete stream with empty pieces, two full chunks and a short last one *)
 Example C10_example :
   stream_buffered 2 [[97%N]; []; [98%N]; [99%N]; []; []; [100%N]; [101%N]; []]
   = Ok [[97%N; 98%N]; [99%N; 100%N]; [101%N]].
+Proof. vm_compute. reflexivity. Qed.
+Example C10_example_history :
+  snd (srun {| mode := None; rest := [[97%N]; []; [98%N]; [99%N]; [100%N]; [101%N]] |}
+            [ONext; OEnable 1; OEnable 2; ONext; ODisable; ONext; OEnable 2; ODisable; OEnable 2; ONext; ONext])
+  = [SChunk [97%N]; SValueError; SNone; SChunk [98%N; 99%N]; SNone; SChunk [100%N]; SNone; SNone; SNone; SChunk [101%N]; SStop].
 Proof. vm_compute. reflexivity. Qed.
 Example C10_example_term :
   run_gen buffered_term 5 2 [[97%N]; []; [98%N]; [99%N]; []; []; [100%N]; [101%N]; []] 11
